@@ -515,7 +515,10 @@ def generate_sub_moved_events(
         for directory in directories:
             full_path = os.path.join(root, directory)  # type: ignore[call-overload]
             renamed_path = src_dir_path + full_path[len(dest_dir_path) :] if src_dir_path else ""
-            yield DirMovedEvent(renamed_path, full_path, is_synthetic=True)
+            # os.walk() lists a symbolic link to a directory among the directories; it is
+            # reported as a file everywhere else (the link itself is not a directory).
+            cls = FileMovedEvent if os.path.islink(full_path) else DirMovedEvent
+            yield cls(renamed_path, full_path, is_synthetic=True)
         for filename in filenames:
             full_path = os.path.join(root, filename)  # type: ignore[call-overload]
             renamed_path = src_dir_path + full_path[len(dest_dir_path) :] if src_dir_path else ""
@@ -536,7 +539,9 @@ def generate_sub_created_events(src_dir_path: bytes | str) -> Generator[DirCreat
     for root, directories, filenames in os.walk(src_dir_path):  # type: ignore[type-var]
         for directory in directories:
             full_path = os.path.join(root, directory)  # type: ignore[call-overload]
-            yield DirCreatedEvent(full_path, is_synthetic=True)
+            # A symbolic link to a directory is not a directory (see generate_sub_moved_events).
+            cls = FileCreatedEvent if os.path.islink(full_path) else DirCreatedEvent
+            yield cls(full_path, is_synthetic=True)
         for filename in filenames:
             full_path = os.path.join(root, filename)  # type: ignore[call-overload]
             yield FileCreatedEvent(full_path, is_synthetic=True)
